@@ -4,6 +4,7 @@
 package main
 
 import (
+	"errors"
 	"runtime"
 	"bytes"
 	"io"
@@ -24,6 +25,16 @@ type scriptReader struct {
 	rem    []byte
 	script []entry
 	maxReq int
+	fail   error // when set, returned in place of io.EOF
+}
+
+var errBoom = errors.New("boom")
+
+func (r *scriptReader) end() error {
+	if r.fail != nil {
+		return r.fail
+	}
+	return io.EOF
 }
 
 func (r *scriptReader) Read(p []byte) (int, error) {
@@ -37,7 +48,7 @@ func (r *scriptReader) Read(p []byte) (int, error) {
 		if len(r.script) > 0 {
 			r.script = r.script[1:]
 		}
-		return 0, io.EOF
+		return 0, r.end()
 	}
 	if len(r.script) == 0 {
 		n := copy(p, r.rem)
@@ -53,7 +64,7 @@ func (r *scriptReader) Read(p []byte) (int, error) {
 	n := copy(p[:k], r.rem)
 	r.rem = r.rem[n:]
 	if len(r.rem) == 0 && e.eof && n > 0 {
-		return n, io.EOF
+		return n, r.end()
 	}
 	return n, nil
 }
@@ -112,6 +123,8 @@ func encodeItems(t string) ([]byte, bool) {
 
 func errClass(err error) string {
 	switch err {
+	case errBoom:
+		return "io"
 	case io.EOF:
 		return "eof"
 	case io.ErrUnexpectedEOF:
@@ -122,8 +135,9 @@ func errClass(err error) string {
 	return "other:" + err.Error()
 }
 
-func readAll(s []byte, script []entry) string {
-	r := &scriptReader{rem: s, script: script}
+func readAll(s []byte, script []entry) string { return readAllFrom(&scriptReader{rem: s, script: script}) }
+
+func readAllFrom(r *scriptReader) string {
 	var chunks []string
 	var err error
 	for {
@@ -234,6 +248,12 @@ func main() {
 				panic(err)
 			}
 			return readAll(s, parseScript(a[2]))
+		case "decx":
+			s, err := wire.Payload(a[1])
+			if err != nil {
+				panic(err)
+			}
+			return readAllFrom(&scriptReader{rem: s, script: parseScript(a[2]), fail: errBoom})
 		case "rt":
 			b, ok := encodeItems(a[1])
 			if !ok {
